@@ -103,6 +103,16 @@ func schemaKinds(s kit.Schema) string {
 	return strings.Join(parts, "")
 }
 
+// withBig switches one case in twenty to the Big mode of the generators (collections of
+// dozens of elements, fan-in of dozens of referrers): size thresholds.
+func withBig(t *rapid.T, cfg kit.TxnCfg) kit.TxnCfg {
+	cfg.Big = cfg.Big || rapid.IntRange(0, 19).Draw(t, "big") == 0
+	if cfg.Big {
+		kit.Label("generator", "big-mode-case")
+	}
+	return cfg
+}
+
 // runHistory is the loop shared by the L1 properties: draw a schema and a history
 // of transactions against the evolving reference state, compare every step.
 func runHistory(t *rapid.T, prop string, profile kit.Profile, cfg kit.TxnCfg, maxTxn int,
@@ -117,7 +127,7 @@ func runHistory(t *rapid.T, prop string, profile kit.Profile, cfg kit.TxnCfg, ma
 	if err != nil {
 		t.Fatalf("newL1: %v", err)
 	}
-	g := kit.NewTxnGen(s, cfg)
+	g := kit.NewTxnGen(s, withBig(t, cfg))
 	n := rapid.IntRange(1, maxTxn).Draw(t, "ntxn")
 	var hist [][]kit.Op
 	var sig []string
@@ -150,7 +160,7 @@ func runHistory(t *rapid.T, prop string, profile kit.Profile, cfg kit.TxnCfg, ma
 	kit.Record(prop, schemaKinds(s)+"|"+strings.Join(sig, "|"), nontrivial, func() interface{} { return mkHistCase(s, hist, -1, nil) }, labels...)
 }
 
-var cfgC03 = kit.TxnCfg{MaxOps: 4, MayReject: true, Invalid: true, Named: true, OmitUUID: true, MaxRows: 6}
+var cfgC03 = kit.TxnCfg{MaxOps: 4, MayReject: true, Invalid: true, Named: true, OmitUUID: true, MaxRows: 6, ZeroDivisors: true}
 
 func TestC03(t *testing.T) {
 	rapid.Check(t, func(t *rapid.T) {
